@@ -186,6 +186,19 @@ Definition send_message (c : conn) (m : msg) : conn * list out * bool :=
   | Raise e => (c, [Escaped e], false)
   end.
 
+(* _TCPPooling.send_message, tcp.py:251-265 — the token-interface entry for outgoing messages: a response
+   whose class is masked by the message's No-Response option (258; `opt.no_response or 0`, first option of that
+   number) is not sent at all; otherwise every No-Response option is removed and the connection sends *)
+Definition no_response_value (os : list (Z * bytes)) : Z :=
+  match filter (fun o => fst o =? 258) os with [] => 0 | o :: _ => from_bytes_big (snd o) end.
+Definition no_response_masked (m : msg) : bool :=
+  is_response (code m) &&
+  negb (Z.land (no_response_value (opts m)) (Z.shiftl 1 (Z.shiftr (code m) 5 - 1)) =? 0).
+Definition strip_no_response (m : msg) : msg :=
+  {| code := code m; token := token m; opts := filter (fun o => negb (fst o =? 258)) (opts m); payload := payload m |}.
+Definition pool_send_message (c : conn) (m : msg) : conn * list out * bool :=
+  if no_response_masked m then (c, [], true) else send_message c (strip_no_response m).
+
 (* RFC8323Remote.abort, rfc8323common.py:182-190 + TcpConnection._abort_with, tcp.py:124-127
    (the transport is always set: connection_made comes first) *)
 Definition abort_msg (errormessage : bytes) (bad_csm_option : option Z) : msg :=
@@ -307,9 +320,9 @@ Definition connection_made (c : conn) : conn * list out :=
 (* ------------------------------------------------------------------ event histories *)
 (* what the environment does to a connection. A closed stream transport delivers no more data
    (asyncio removes the reader on close()), so EData is dropped once [closed]; the harness
-   does not send on a closed connection either. ESend carries the
+   does not send on a closed connection either (ESend: conn._send_message; ESendVia: pool.send_message). ESend carries the
    option values as given to create_option(decode=...). *)
-Inductive event := EData (b : bytes) | ESend (m : msg) | ELost.
+Inductive event := EData (b : bytes) | ESend (m : msg) | ELost | ESendVia (m : msg).
 
 Fixpoint normalize_opts (os : list (Z * bytes)) : M (list (Z * bytes)) :=
   match os with
@@ -327,6 +340,12 @@ Definition step (c : conn) (e : event) : conn * list out :=
     | Raise e => (c, [Escaped e])
     end
   | ELost => (c, [DispatchError ConnectionLost])      (* connection_lost, tcp.py:169-176 *)
+  | ESendVia m =>                                     (* pool.send_message(message, monitor) *)
+    if closed c then (c, []) else
+    match normalize_opts (opts m) with
+    | Ok os => let '(c1, o, _) := pool_send_message c {| code := code m; token := token m; opts := os; payload := payload m |} in (c1, o)
+    | Raise e => (c, [Escaped e])
+    end
   end.
 Definition is_escaped (o : out) : bool := match o with Escaped _ => true | _ => false end.
 Definition is_close (o : out) : bool := match o with Close => true | _ => false end.
